@@ -83,7 +83,7 @@ impl Check for C15 {
          operation (all of bytes 0..64, the last 8 bytes, every 4th byte elsewhere; thorough: every byte). For each image accepted by \
          E57Reader::new: it must stem from after the entry into the top-level finalize, list the same point clouds and images as the completed file, \
          report the completed file's header fields, and every read operation (XML, descriptors, raw and simple iteration of every cloud, every blob) must fail or return exactly the completed \
-         file's result. 1 in 6 programs runs on a reused device that still holds an older complete file (cursor at 0): the writer either refuses \
+         file's result. 1 program in 8 keeps calling the writer after the top-level finalize (finalize again, further add_* calls, finalize once more); 1 in 6 programs runs on a reused device that still holds an older complete file (cursor at 0): the writer either refuses \
          the device without touching it or every image (old content overlaid with the new writes) obeys the same rule. `evaluations` counts programs, `executions_of_code_under_test` counts crash images. Non-trivial: program whose image set \
          contains a cut inside the final header-patch write, or an accepted incomplete image, or a reused device."
             .into()
@@ -126,6 +126,12 @@ impl Check for C15 {
                     _ => {}
                 }
             }
+        }
+        if program.end == End::Finalize && s.chance(1, 8) {
+            // a caller that keeps using the finished writer: whatever those calls do, no image may be accepted that is not
+            // the file as it stands at the end
+            let more = small_program(s).ops.into_iter().filter(|o| !matches!(o, prog::Op::Ext { .. })).take(2).collect();
+            program.end = End::FinalizeThenMore { more };
         }
         let old = if s.chance(1, 6) { Some(small_program(s)) } else { None };
         Case { program, all_cuts: t == Tier::Thorough, old }
